@@ -212,26 +212,22 @@ theorem kinv_step (s s' : St) (e : Ev) (h : KInv s) (hs : step s e = some s') : 
     · split at hs
       · simp at hs; subst hs; exact kinv_congr (s := s) rfl rfl h
       · simp at hs
-  | exec =>
+  | exec id =>
     simp only [step] at hs
     split at hs
-    · rename_i id op hc
+    · rename_i op hc
       simp at hs; subst hs
       exact kinv_congr (s := (execOp s op).1) rfl rfl (kinv_execOp s op h)
     · simp at hs
   | ctor k d =>
     simp only [step] at hs
     split at hs
-    · split at hs
-      · simp at hs; subst hs; exact kinv_congr (s := s) rfl rfl h
-      · simp at hs
+    · simp at hs; subst hs; exact kinv_congr (s := s) rfl rfl h
     · simp at hs
   | ret id res =>
     simp only [step] at hs
     split at hs
-    · split at hs
-      · simp at hs; subst hs; exact kinv_congr (s := s) rfl rfl h
-      · simp at hs
+    · simp at hs; subst hs; exact kinv_congr (s := s) rfl rfl h
     · simp at hs
   | proceed g i =>
     simp only [step] at hs
